@@ -127,11 +127,14 @@ def check_parity_of_vector(
         number of the marked qubits of the corresponding bitstring are in the 1 state
         and 0 if otherwise.
     """
-    if not marked_qubits:
+    # The truth value of the collection itself must not be used: a numpy array holding
+    # only qubit 0 is falsy and longer arrays have no truth value at all.
+    marked_qubits = np.fromiter(marked_qubits, dtype=int)
+    if marked_qubits.size == 0:
         return np.ones(bitstrings_vector.shape[0])
 
     # Check if an even number of the marked qubits of each bitstring are in the 1 state
-    bitstring_subset = bitstrings_vector[:, np.fromiter(marked_qubits, dtype=int)]
+    bitstring_subset = bitstrings_vector[:, marked_qubits]
     return (bitstring_subset.sum(axis=1) + 1) % 2
 
 
